@@ -644,16 +644,25 @@ def check_build_A(ctx: Ctx, rules: Dict[str, str]):
     I = inner[0]
     okI = isinstance(I.iter, ast.Call) and dotted(I.iter.func) == "enumerate" and norm(I.iter.args[0]) == tup and \
         isinstance(I.target, ast.Tuple) and len(I.target.elts) == 2
+    size_of = None
+    if okI:
+        aid, uid = norm(I.target.elts[0]), norm(I.target.elts[1])
+        size_of = f"{sizes}[{aid}]"
+    elif isinstance(I.iter, ast.Call) and dotted(I.iter.func) == "zip" and [norm(a) for a in I.iter.args] == [tup, sizes] and \
+            isinstance(I.target, ast.Tuple) and len(I.target.elts) == 2 and all(isinstance(e, ast.Name) for e in I.target.elts):
+        # slot by slot, side by side with that annotator's number of units (a candidate has one slot per annotator, as many as sizes has entries)
+        uid, size_of = norm(I.target.elts[0]), norm(I.target.elts[1])
+        aid = "?"
+        okI = True
     if not okI:
         return k.undecided("A-loops", I, "for annotator_id, unit_id in enumerate(tuple) expected")
-    aid, uid = norm(I.target.elts[0]), norm(I.target.elts[1])
     # offset variable: reset per candidate, advanced by sizes[a] in every iteration
     resets = [s for s in O.body if isinstance(s, ast.Assign) and isinstance(s.targets[0], ast.Name) and A_const(s.value) == 0
               and O.body.index(s) < O.body.index(I)]
     off = resets[0].targets[0].id if resets else None
     adv = [s for s in ast.walk(I) if isinstance(s, ast.AugAssign) and off and norm(s.target) == off]
     cfg = CFG(f.node)
-    ok_adv = len(adv) == 1 and isinstance(adv[0].op, ast.Add) and norm(expand_locals(f.node, adv[0].value)) == f"{sizes}[{aid}]" and \
+    ok_adv = len(adv) == 1 and isinstance(adv[0].op, ast.Add) and norm(expand_locals(f.node, adv[0].value)) == size_of and \
         cfg.every_iteration_passes(I, {cfg.node_of(adv[0])})
     k.check("A-offset", bool(off) and ok_adv, adv[0] if adv else I,
             "row offset restarts at 0 for each candidate and advances by sizes[annotator] in every iteration (also for empty slots)",
@@ -662,8 +671,8 @@ def check_build_A(ctx: Ctx, rules: Dict[str, str]):
     ok_null = False
     ok_store = False
     if len(ifs) == 1:
-        t = expand_locals(f.node, ifs[0].test, skip=(uid, aid))
-        ok_null = is_cmp(t, uid, "!=", f"{sizes}[{aid}]") or is_cmp(t, uid, "<", f"{sizes}[{aid}]")
+        t = expand_locals(f.node, ifs[0].test, skip=(uid, aid, size_of))
+        ok_null = is_cmp(t, uid, "!=", size_of) or is_cmp(t, uid, "<", size_of)
         st = [s for s in ifs[0].body if isinstance(s, ast.Assign) and isinstance(s.targets[0], ast.Subscript)]
         if len(st) == 1 and norm(st[0].targets[0].value) == Am and isinstance(st[0].targets[0].slice, ast.Tuple):
             r, c = st[0].targets[0].slice.elts
